@@ -428,6 +428,40 @@ def trace_of(sseed, kind, perturb=False):
     return [e for e in tr if e[0] == "create"]
 
 
+def trace_resumed(sseed, kind, handoff, phase):
+    """C12 'in the same process or in a fresh one', for a search that is stopped and resumed: the schedule runs k1 requests,
+    the project is saved, a fresh oracle reloads it and serves k2 more requests. phase "whole": everything in this process
+    (the project directory and the generator state at the hand-over are left in `handoff`); phase "second": a new process
+    builds the oracle again, reloads `handoff` and serves the k2 requests. Returns the trials issued after the hand-over."""
+    import shutil
+    R = random.Random(sseed)
+    with tempdir("ktt") as d:
+        specs = gen.rand_specs(R, finite=(kind == "grid" or R.random() < 0.7), maxdepth=2, top=(1, 2))
+        over = dict(max_epochs=R.randint(2, 6), factor=2, iterations=1) if kind == "hyperband" else (dict(max_trials=R.randint(6, 14)) if kind == "random" else {})
+        o = gen.make_oracle(R, kind, specs, d, seed=R.choice([0, 5, R.randint(0, 999)]), max_consecutive_failed_trials=6, **over)
+        palette = R.choice([[1], [1, 1, 1, 2, 0.5], [1, 2]])
+        ntun = R.randint(1, 3)
+        k1, k2 = R.randint(3, 25), R.randint(6, 40)
+        kw = dict(score_of=lambda R_, t: float(R_.choice(palette)), outcomes=["C"] * 6 + ["INV", "FAIL"], ntuners=ntun)
+        if phase == "whole":
+            run_schedule(o, R, steps=k1, **kw)
+            quiet(o.save)
+            shutil.rmtree(handoff, ignore_errors=True)
+            shutil.copytree(os.path.join(d, "p"), os.path.join(handoff, "p"))
+            st = R.getstate()
+            json.dump([st[0], list(st[1]), st[2]], open(os.path.join(handoff, "rstate.json"), "w"))
+            o2 = gen.clone_oracle(o, d)
+            quiet(o2.reload)
+        else:
+            st = json.load(open(os.path.join(handoff, "rstate.json")))
+            R.setstate((st[0], tuple(st[1]), st[2]))
+            o2 = o
+            o2._set_project_dir(handoff, "p")
+            quiet(o2.reload)
+        tr = run_schedule(o2, R, steps=k2, **kw)
+    return [e for e in tr if e[0] == "create"]
+
+
 def run(seed, tier, n=None, subprocs=None, modes=("random", "random", "hyperband", "grow-random", "grow-hyperband", "determinism", "bayes", "random")):
     res = Result("sampling")
     res.rule = ("random search over discrete conditional spaces re-executed by the seeded-sampling model from the logged PRNG draws; every "
@@ -506,6 +540,30 @@ def run(seed, tier, n=None, subprocs=None, modes=("random", "random", "hyperband
                 res.hist["fresh-interpreter-equal"] += 1
                 res.evaluations += a.count('"create"')
                 res.nontrivial.add(hashlib.sha1(a.encode()).hexdigest())
+    # ... and searches that are stopped and RESUMED in a fresh interpreter (what is written to oracle.json must mean the same there)
+    for k in range(subprocs):
+        with tempdir("kth") as hd:
+            batch = [(R.randrange(1 << 30), ("random", "hyperband", "random", "grid", "random", "hyperband")[j % 6], os.path.join(hd, f"h{j}")) for j in range(batch_n)]
+            here = [json.dumps(trace_resumed(ss, kd, h, "whole"), default=str) for ss, kd, h in batch]
+            env = dict(os.environ, PYTHONHASHSEED=str(2 + (batch[0][0] % 1000)), KT_REPO=REPO)
+            p = subprocess.run([sys.executable, "-c",
+                                f"import sys, json; sys.path.insert(0, {VERIF!r}); from harness import suite_sampling as s\n"
+                                f"for ss, kd, h in {batch!r}: print('TRACE' + json.dumps(s.trace_resumed(ss, kd, h, 'second'), default=str))"],
+                               capture_output=True, text=True, env=env, timeout=1200)
+        out = [l for l in p.stdout.splitlines() if l.startswith("TRACE")]
+        if len(out) != len(batch):
+            res.errors.append(f"fresh-interpreter resume failed: {p.stderr[-300:]}")
+            continue
+        for (ss, kd, _h), a, b in zip(batch, here, out):
+            res.scenarios += 1
+            if b[5:] != a:
+                res.violations.append({"pid": "C12", "what": f"{kd}: a search stopped and resumed in a fresh interpreter (another PYTHONHASHSEED) issues other trials than the same "
+                                                             f"search resumed in the same process (scenario {ss}): {b[5:][:160]} vs {a[:160]}",
+                                       "sig": {"tag": "resumed-in-new-process", "kind": kd}, "replay": {"suite": "sampling", "seed": ss, "mode": "subprocess-resume", "kind": kd}})
+            else:
+                res.hist["fresh-interpreter-resume-equal"] += 1
+                res.evaluations += a.count('"create"')
+                res.nontrivial.add(hashlib.sha1(("r" + a).encode()).hexdigest())
     try:
         out = run_driver(all_lines) if all_lines else []
     except Exception as e:
@@ -547,6 +605,21 @@ def replay(doc):
             res.evaluations += a.count('"create"')
             if out and out[0][5:] != a:
                 raise Violation("C12", f"{doc['kind']}: a fresh interpreter with another PYTHONHASHSEED issues different trials for seed scenario {doc['seed']}", {"tag": "two-processes", "kind": doc["kind"]})
+            return res
+        elif mode == "subprocess-resume":
+            with tempdir("kth") as hd:
+                h = os.path.join(hd, "h")
+                a = json.dumps(trace_resumed(doc["seed"], doc["kind"], h, "whole"), default=str)
+                env = dict(os.environ, PYTHONHASHSEED=str(2 + (doc["seed"] % 1000)), KT_REPO=REPO)
+                p = subprocess.run([sys.executable, "-c",
+                                    f"import sys, json; sys.path.insert(0, {VERIF!r}); from harness import suite_sampling as s; "
+                                    f"print('TRACE' + json.dumps(s.trace_resumed({doc['seed']}, {doc['kind']!r}, {h!r}, 'second'), default=str))"],
+                                   capture_output=True, text=True, env=env, timeout=600)
+            out = [l for l in p.stdout.splitlines() if l.startswith("TRACE")]
+            res.evaluations += a.count('"create"')
+            if out and out[0][5:] != a:
+                raise Violation("C12", f"{doc['kind']}: a search stopped and resumed in a fresh interpreter (another PYTHONHASHSEED) issues other trials than the same search "
+                                       f"resumed in the same process (scenario {doc['seed']})", {"tag": "resumed-in-new-process", "kind": doc["kind"]})
             return res
         else:
             return res
